@@ -6,7 +6,7 @@ from lib.common import *
 def write_scenarios(progs, path, extra=None):
     with open(path, "w") as f:
         for p in progs:
-            rec = {"src": p["src"], "kernel": p.get("kernel"), "inputs": [limbs(x) for x in p["inputs"]],
+            rec = {"src": p.get("src", ""), "ops": p.get("ops"), "kernel": p.get("kernel"), "inputs": [limbs(x) for x in p["inputs"]],
                    "adv": [limbs(x) for x in p.get("adv", [])], "max_cycles": 200000}
             if extra:
                 rec.update(extra)
